@@ -1,6 +1,9 @@
 (* Model of the module registry of /repo/pkg/yang  (no proofs in this file):
      yang.go:152-169     Module.Current, Module.FullName
-     modules.go:152-190  Modules.add (as repaired by the fix for D30; the pinned version is add_old)
+     modules.go          Modules.checkAdd + Modules.add (duplicate test against ms.loaded, then filing; as
+                         repaired by the fix for D30 -- the pinned version is add_old).  One header = one text
+                         with one (sub)module statement: Parse's all-or-nothing handling of a text with several
+                         statements and its duplicate test among them are not modelled here
      modules.go:190-215  the lookup half of Modules.FindModule (before it goes to disk)
 
    Strings are lists of bytes (N, 0..255) and are compared as Go compares strings:
